@@ -37,7 +37,7 @@ theorem gRemoveIt_eq (kind : Kind) (h : Nat → Nat) (t : PTable) (item : Nat) (
     gRemoveIt kind h t (.item item) = some (t.removeItem item) := by
   cases kind
   · exact gen_map_removeIt h t item hc hp
-  · exact gen_set_removeIt h t item hc
+  · exact gen_set_removeIt h t item hc hp
   · exact gen_pool_removeIt h t item hc
 
 theorem gRemoveKey_eq (kind : Kind) {h : Nat → Nat} {pt : PTable} {t : Table} (hr : Rel pt t) (hi : t.Inv h) (k : Nat) :
@@ -85,7 +85,7 @@ theorem gstep_eq_pstep (kind : Kind) (h : Nat → Nat) (ps : PState) (s : State)
     obtain ⟨hr, hself⟩ := hp.get t
     have hi := hs.get t
     simp only [gstep, pstep, hav, Bool.not_true, Bool.false_eq_true, if_false]
-    cases kind <;> simp only [gen_map_append hr hi, gen_set_append _ _ k v, gen_pool_append _ _ k v] <;>
+    cases kind <;> simp only [gen_map_append hr hi, gen_set_append hr hi k v, gen_pool_append _ _ k v] <;>
       (cases (ps.get t).insert _ h (.stl (ps.get t).self) k v <;> simp)
   | prepend t k v =>
     obtain ⟨hr, hself⟩ := hp.get t
@@ -96,7 +96,7 @@ theorem gstep_eq_pstep (kind : Kind) (h : Nat → Nat) (ps : PState) (s : State)
     cases kind
     · simp only [gen_map_prepend hr hi]
       cases (ps.get t).insert Kind.map h (ps.get t).begin k v <;> simp
-    · simp only [gen_set_prepend _ _ k v (hb _)]
+    · simp only [gen_set_prepend hr hi k v]
       cases (ps.get t).insert Kind.set h (ps.get t).begin k v <;> simp
     · simp [Op.available] at hav
   | insert t pos k v =>
@@ -181,11 +181,12 @@ theorem gstep_eq_pstep (kind : Kind) (h : Nat → Nat) (ps : PState) (s : State)
   | assign t =>
     simp only [gstep, pstep, hav, Bool.not_true, Bool.false_eq_true, if_false]
     obtain ⟨hr, hself⟩ := hp.get t
-    cases kind <;> simp only [gAssign, gen_map_assign hr (hs.get t), gen_set_assign]
+    cases kind <;> simp only [gAssign, gen_map_assign hr (hs.get t), gen_set_assign hr (hs.get t)]
   | appendAll t =>
+    obtain ⟨hr, hself⟩ := hp.get t
     simp only [gstep, pstep, hav, Bool.not_true, Bool.false_eq_true, if_false]
     by_cases hk : kind = Kind.set
-    · subst hk; simp only [if_true, gen_set_appendAll]
+    · subst hk; simp only [if_true, gen_set_appendAll hr (hs.get t)]
     · simp only [hk, if_false]
   | removeAll t =>
     obtain ⟨hr, hself⟩ := hp.get t
